@@ -93,7 +93,7 @@ Theorem C14_invariant_reachable : forall mn mr mp h b, run (init_bus mn mr mp) h
 Proof. exact reachable_inv. Qed.
 Print Assumptions C14_invariant_reachable.
 
-(* ---- the exceptions are real: one witness per class (findings F10a, F10b, F10c, F14.1) --------- *)
+(* ---- the exceptions are real: one witness per class (findings F10a, F10b, F10c) ------------------ *)
 Theorem C14_waiter_release_refuted :
   exists b, run (init_bus 512 512 128) hist_waiter = Some b /\
             ~ atomic b 2 (step b (EvRelease 2 nameA)) (step_oom 3 b (EvRelease 2 nameA)).
@@ -125,20 +125,21 @@ Theorem C14_hello_retry_refuted :
 Proof. exact hello_retry_refuted. Qed.
 Print Assumptions C14_hello_retry_refuted.
 
-Theorem C14_release_primary_refuted :
-  exists b b', run (init_bus 512 512 128) hist_release = Some b /\
-               step_oom 21 b (EvRelease 1 nameA) = OOk b' [(1, MError ENoMemory)] /\
-               lookup (b_services b') (KW nameA) = Some [mkOwner 1 false false false] /\
-               step b' (EvRequest 2 nameA 0) = OStop /\
-               ~ atomic b 1 (step b (EvRelease 1 nameA)) (step_oom 21 b (EvRelease 1 nameA)).
-Proof. exact release_primary_refuted. Qed.
-Print Assumptions C14_release_primary_refuted.
+(* the former witnesses of finding F14.1 (fixed: restore_ownership works) are regression inputs now:
+   an allocation of the reply fails after the owner was removed / swapped, and everything is put back *)
+Theorem C14_release_primary_restored :
+  exists b, run (init_bus 512 512 128) hist_release = Some b /\
+            step_oom 25 b (EvRelease 1 nameA) = OOk b [(1, MError ENoMemory)] /\
+            step_oom 25 b (EvRelease 1 nameA) <> step b (EvRelease 1 nameA).
+Proof. exact release_primary_restored. Qed.
+Print Assumptions C14_release_primary_restored.
 
-Theorem C14_replace_refuted :
-  exists b, run (init_bus 512 512 128) hist_replace = Some b /\ step_oom 36 b (EvRequest 2 nameA 2) = OStop /\
-            step b (EvRequest 2 nameA 2) <> OStop.
-Proof. exact replace_refuted. Qed.
-Print Assumptions C14_replace_refuted.
+Theorem C14_replace_restored :
+  exists b, run (init_bus 512 512 128) hist_replace = Some b /\
+            step_oom 40 b (EvRequest 2 nameA 2) = OOk b [(2, MError ENoMemory)] /\
+            step_oom 40 b (EvRequest 2 nameA 2) <> step b (EvRequest 2 nameA 2).
+Proof. exact replace_restored. Qed.
+Print Assumptions C14_replace_restored.
 
 (* ---- ... and, for four of the classes, the exception is exact: EVERY state of the class has a
    failing index at which NoMemory is reported although the state changed ------------------------- *)
@@ -220,6 +221,6 @@ Proof. eexists; split; [vm_compute; reflexivity|]. vm_compute; reflexivity. Qed.
 Example C14_ex_uncovered :
   exists b, run (init_bus 512 512 128) ex_hist = Some b /\
             uncovered b (EvRequest 1 nameA 1) = false /\ uncovered b (EvRequest 1 nameA 0) = true /\
-            uncovered b (EvRelease 1 nameA) = true /\ uncovered b (EvRelease 2 nameA) = false /\
+            uncovered b (EvRelease 1 nameA) = false /\ uncovered b (EvRelease 2 nameA) = false /\
             uncovered b (EvAddMatch 2 1) = false /\ uncovered b (EvSignal 0 0) = false.
 Proof. eexists; split; [vm_compute; reflexivity|]. repeat split; vm_compute; reflexivity. Qed.
